@@ -91,7 +91,8 @@ pub fn lin<L>()
 where
     L: Fixed + core::ops::Add<Output = L> + core::ops::Sub<Output = L>,
     for<'a> &'a L: core::ops::Add<&'a L, Output = L> + core::ops::Sub<&'a L, Output = L>,
-    for<'a> L: core::ops::AddAssign<&'a L> + core::ops::SubAssign<&'a L>,
+    for<'a> L: core::ops::AddAssign<&'a L> + core::ops::SubAssign<&'a L> + core::iter::Sum<&'a L>,
+    L: core::iter::Sum<L>,
     L::Bits: Raw,
 {
     let a = <L::Bits as Raw>::any();
@@ -120,6 +121,10 @@ where
         let mut u = x;
         u += &y;
         assert!(t.to_bits() == w_add.wrapped && u.to_bits() == w_add.wrapped && (&x + &y).to_bits() == w_add.wrapped, "a += b, a += &b, &a + &b equal a + b");
+        let arr = [x, y];
+        let s1: L = arr.iter().sum();
+        let s2: L = arr.iter().cloned().sum();
+        assert!(s1.to_bits() == w_add.wrapped && s2.to_bits() == w_add.wrapped, "sum of [a, b] (by reference and by value) equals a + b");
     }
     if !w_sub.overflow {
         assert!((x - y).to_bits() == w_sub.wrapped, "a - b is exact when representable");
